@@ -130,18 +130,31 @@ func (r *crashRun) emitAck(bulk [][]byte, resp map[string]interface{}, alive boo
 		bl = append(bl, hx(d))
 	}
 	ev := trace.Ev{"a": "ack", "n": 1, "bulk": bl, "err": !alive || resp["err"] == true}
+	big := len(bulk) > 16
+	if big {
+		// large bulk: every version and event digest, a sample of the tree digests
+		ev["a"] = "ackbig"
+	}
 	sl := []interface{}{}
+	vs, es := []interface{}{}, []interface{}{}
 	if alive {
 		if snaps, ok := resp["snaps"].([]interface{}); ok {
-			for _, x := range snaps {
+			for i, x := range snaps {
 				s := x.(map[string]interface{})
 				v := uint64(s["v"].(float64))
-				sl = append(sl, trace.Ev{"v": v, "e": s["e"], "hist": r.enc.Enc(unhex(s["hist"])), "hyper": r.enc.Enc(unhex(s["hyper"]))})
+				if !big || i == 0 || i == len(snaps)-1 {
+					sl = append(sl, trace.Ev{"i": i + 1, "v": v, "e": s["e"], "hist": r.enc.Enc(unhex(s["hist"])), "hyper": r.enc.Enc(unhex(s["hyper"]))})
+				}
+				vs = append(vs, v)
+				es = append(es, s["e"])
 				r.acked[v] = true
 			}
 		}
 	}
 	ev["snaps"] = sl
+	if big {
+		ev["vs"], ev["es"] = vs, es
+	}
 	r.tw.Emit(ev)
 }
 
@@ -170,7 +183,18 @@ func (r *crashRun) pathTerms(p map[string]hashing.Digest) trace.Ev {
 // where an acknowledgement exists - TLC checks that equality on the ack events)
 func (r *crashRun) queryAll(c *child) bool {
 	n := uint64(len(r.log))
+	sample := map[uint64]bool{}
+	if n > 64 {
+		// long log: the last event, the first, and a few others
+		sample[0], sample[n-1] = true, true
+		for len(sample) < 5 {
+			sample[uint64(r.rng.Int63n(int64(n)))] = true
+		}
+	}
 	for i := uint64(0); i < n; i++ {
+		if n > 64 && !sample[i] {
+			continue
+		}
 		for t := 0; t < 2; t++ {
 			q := n - 1
 			latest := t == 0
@@ -323,6 +347,7 @@ func crashDriver(args []string) error {
 	files := fs.Int("files", 1, "")
 	first := fs.Int("fi", 0, "")
 	mode := fs.String("mode", "kill", "kill|stop")
+	big := fs.Bool("big", false, "long log: three bulks of ~360 events (the hyper cache table spans pages of the warm-up), then small insertions; the crash hits the first small one")
 	fs.Parse(args)
 	thorough := *tier == "thorough"
 	tmp, err := ioutil.TempDir("", "drvcrash")
@@ -342,7 +367,11 @@ func crashDriver(args []string) error {
 			return err
 		}
 		enc := symhash.NewEncoder(symhash.Global, func(def symhash.Term) { dw.Emit(def) })
-		u := makeUniverse(rng, 14+16)
+		usz := 14 + 16
+		if *big {
+			usz = 14 + 1300
+		}
+		u := makeUniverse(rng, usz)
 		keys := trace.Ev{}
 		for _, k := range u {
 			keys[hx(k)] = bitsOf(k)
@@ -369,12 +398,39 @@ func crashDriver(args []string) error {
 		if thorough {
 			points = 2 * k
 		}
+		bigAt := -1
+		if *big {
+			bulks = bulks[:0]
+			pi = 14 // random digests only: one hyper cache tile each
+			for j := 0; j < 3; j++ {
+				b := [][]byte{}
+				for x := 0; x < 340+rng.Intn(40); x++ {
+					b = append(b, u[pi])
+					pi++
+				}
+				bulks = append(bulks, b)
+			}
+			for j := 0; j < 3; j++ {
+				b := [][]byte{}
+				for x := 0; x < 1+rng.Intn(3); x++ {
+					b = append(b, u[pi])
+					pi++
+				}
+				bulks = append(bulks, b)
+			}
+			k = len(bulks)
+			bigAt = 3 + fi%2
+			points = 1
+		}
 		for p := 0; p < points; p++ {
 			at := (fi + p/2) % k
 			side := []string{"before", "after"}[(fi+p)%2]
 			if *mode == "stop" {
 				side = "stop"
 				at = (fi + p) % k
+			}
+			if bigAt >= 0 {
+				at = bigAt
 			}
 			snapAt := -1
 			if rng.Intn(3) == 0 && at > 0 {
